@@ -20,7 +20,7 @@ import (
 func init() {
 	vf.Register(&vf.Prop{
 		ID: "C19", Level: "model_checking",
-		Rule: "(a) universe U of types: every type of constructor depth<=2 over 26 leaves built twice (distinct objects), special shapes, interfaces with permuted methods/embeddings, unions with permuted/duplicated terms, generic signatures with renamed type parameters, separately instantiated generics; ALL ordered pairs: Identical(x,y) => Hash(x)==Hash(y), Hash never panics. " +
+		Rule: "(a) universe U of types: every type of constructor depth<=2 over 26 leaves built twice (distinct objects), special shapes, interfaces with permuted methods/embeddings, unions with permuted/duplicated terms, generic signatures with renamed type parameters (hand-built, and all generated signatures of 1..3 type parameters whose constraints are plain or mention another/the same type parameter, type-checked under two naming schemes), separately instantiated generics; ALL ordered pairs: Identical(x,y) => Hash(x)==Hash(y), Hash never panics. " +
 			"(b) explicit exploration of ALL operation sequences up to length L over keys chosen to collide under the real hash (groups of non-identical types with equal Hash, each with a second identical-but-distinct object) plus a non-colliding key; operations Set(k,1|2), Delete(k), IterateDeleting(k); after EVERY step At(all keys), Len, Keys, Iterate, KeysString are compared with a reference association list under types.Identical. " +
 			"(c) BuiltinTI lookup agrees for identical spellings. state = canonical observation (bucket order + values); non-trivial = sequences with at least one colliding pair live",
 		Assumptions: []string{"types.Identical is the identity relation", "map iteration order inside Iterate is the sorted order chosen by the overlay (any order is legal Go behaviour)"},
@@ -142,6 +142,9 @@ func universe(full bool) []utype {
 		utype{"gsig-T-tildeint", gsig([]string{"T"}, []types.Type{un(term(true, T[types.Int]))}, 0)},
 		utype{"gsig-S-tildeint", gsig([]string{"S"}, []types.Type{un(term(true, T[types.Int]))}, 0)},
 	)
+	// generated generic signatures whose constraints mention other type parameters, under two naming schemes
+	gs, _ := genericSignatures(full)
+	u = append(u, gs...)
 	// free type parameters (identical iff same object)
 	tp1 := types.NewTypeParam(types.NewTypeName(0, pkg, "P", nil), anyT)
 	tp2 := types.NewTypeParam(types.NewTypeName(0, pkg, "P", nil), anyT)
